@@ -528,12 +528,13 @@ func (h *vC15Run) confsTerm(m map[string]*conf.Path) string {
 }
 
 type vC15Step struct {
-	kind  string // reload | create | leave | raced
+	kind  string // reload | create | leave | raced | racedleave
 	spec  vC15Spec
 	name  string
 	what  string
 	specs []vC15Spec // raced: the reloads, in order
 	block int        // raced: 0 = hold every path that has a publisher, 1 = every other one, 2 = none
+	oneP  bool       // raced: on a single P (the scheduler then runs the goroutine started last first)
 }
 
 // number of goroutines that are handing a configuration over to a path (whatever the mechanism is called)
@@ -551,7 +552,12 @@ func vC15HandOvers() int {
 
 // raced issues the reloads back to back while the chosen paths cannot receive, then releases them and waits until
 // every hand-over has landed
-func (h *vC15Run) raced(ncs []map[string]*conf.Path, hold []string) {
+func (h *vC15Run) raced(ncs []map[string]*conf.Path, hold []string, oneP bool) {
+	if oneP {
+		// with one P, a goroutine started by `go` runs before the ones started earlier that have not run yet
+		// (runtime: runnext): two reloads handled back to back start their hand-over goroutines in LIFO order
+		defer runtime.GOMAXPROCS(runtime.GOMAXPROCS(1))
+	}
 	var reqs []defs.PathDescribeReq
 	for _, name := range hold {
 		// the real two-phase describe, done by hand: the path goroutine stays in doDescribe until the answer is taken
@@ -677,10 +683,52 @@ func vC15History(t *testing.T, dir string, initSpec vC15Spec, gen func(k int, cu
 				}
 			}
 			h.cur = ncs[len(ncs)-1]
-			h.raced(ncs, hold)
+			h.raced(ncs, hold, st.oneP)
 			feat["raced-reloads"] = true
 			opTerm = cqApp("HRaced", cqList(terms))
-			opDesc = fmt.Sprintf("raced[%s; held: %s] ", st.what, strings.Join(hold, ",")) + strings.Join(whats, " | ")
+			opDesc = fmt.Sprintf("raced[%s; held: %s; oneP: %v] ", st.what, strings.Join(hold, ","), st.oneP) +
+				strings.Join(whats, " | ")
+		case "racedleave":
+			// the path is held, a reload hands it a configuration, its publisher leaves before the path has received it
+			nc, err := vC15Load(dir, st.spec)
+			pub, ok := h.pubs[st.name]
+			if err != nil || !ok || pub.closed.Load() {
+				continue
+			}
+			note(nc)
+			req := defs.PathDescribeReq{AccessRequest: defs.PathAccessRequest{Name: st.name, SkipAuth: true},
+				Res: make(chan defs.PathDescribeRes)}
+			h.pm.chDescribe <- req
+			res1 := <-req.Res
+			if res1.Err != nil {
+				t.Fatalf("describe %s: %v", st.name, res1.Err)
+			}
+			pa := res1.Path.(*path)
+			pa.chDescribe <- req
+			h.cur = nc
+			curSpec = st.spec
+			h.pm.ReloadPathConfs(nc)
+			h.paths()
+			time.Sleep(2 * time.Millisecond)
+			left := make(chan struct{})
+			go func() {
+				pa.RemovePublisher(defs.PathRemovePublisherReq{Author: pub})
+				close(left)
+			}()
+			time.Sleep(2 * time.Millisecond)
+			<-req.Res
+			<-left
+			delete(h.pubs, st.name)
+			deadline := time.Now().Add(2 * time.Second)
+			for vC15HandOvers() > 0 && time.Now().Before(deadline) {
+				time.Sleep(300 * time.Microsecond)
+			}
+			h.paths()
+			time.Sleep(5 * time.Millisecond) // a path that asked to be closed is closed by now
+			feat["raced-leave"] = true
+			opTerm = cqApp("HRacedLeave", h.confsTerm(nc), cqBytes(st.name))
+			opDesc = "raced-leave[" + st.what + "; held: " + st.name + "] " + strings.Join(vC15AllKeys(st.spec), " ") +
+				" ; unpublish " + st.name
 		case "create":
 			isLive := false
 			for _, n := range live {
@@ -737,7 +785,7 @@ func vC15History(t *testing.T, dir string, initSpec vC15Spec, gen func(k int, cu
 		for _, p := range cur {
 			curBy[p.name] = p
 		}
-		if st.kind == "reload" || st.kind == "raced" {
+		if st.kind == "reload" || st.kind == "raced" || st.kind == "racedleave" {
 			for _, p := range prev {
 				q, ok := curBy[p.name]
 				switch {
@@ -778,7 +826,7 @@ func vC15History(t *testing.T, dir string, initSpec vC15Spec, gen func(k int, cu
 	}
 
 	class := "plain"
-	for _, f := range []string{"raced-reloads", "moved-kept", "moved-closed", "hot-kept", "recreated", "removed"} {
+	for _, f := range []string{"raced-leave", "raced-reloads", "moved-kept", "moved-closed", "hot-kept", "recreated", "removed"} {
 		if feat[f] {
 			class = f
 			break
@@ -908,6 +956,10 @@ func TestVerifC15(t *testing.T) {
 			{kind: "raced", specs: []vC15Spec{{"foo": {0, 1}, "bar": {0, 1}}, {"foo": {0, 2}, "bar": {0, 2}},
 				{"foo": {0, 3}, "bar": {0, 3}}}, what: "hot; hot; hot", block: 2}}},
 	}
+	// a static configuration appears under a live dynamic path, whose publisher leaves before the path has received it
+	racedLeave := directed{vC15Spec{"~^(f)oo$": {0, 0}}, []vC15Step{{kind: "create", name: "foo"},
+		{kind: "racedleave", spec: vC15Spec{"~^(f)oo$": {0, 0}, "foo": {0, 1}}, name: "foo", what: "add-static"}}}
+	const nRacedLeave = 6 // the path goroutine picks the hand-over or the departure at random: each order several times
 	nRaced := n / 8
 	if nRaced < 8 {
 		nRaced = 8
@@ -916,16 +968,26 @@ func TestVerifC15(t *testing.T) {
 		var coq, class string
 		var desc map[string]any
 		var nt bool
-		if j := i - len(corpus); j >= 0 && j < len(raced) {
-			d := raced[j]
+		if j := i - len(corpus); j >= 0 && j < 2*len(raced) {
+			d := raced[j%len(raced)]
+			coq, desc, class, nt = vC15History(t, dir, d.init, func(k int, _ vC15Spec, _, _ []string) *vC15Step {
+				if k >= len(d.steps) {
+					return nil
+				}
+				st := d.steps[k]
+				st.oneP = j < len(raced)
+				return &st
+			})
+			desc["raced-corpus"] = j
+		} else if j >= 2*len(raced) && j < 2*len(raced)+nRacedLeave {
+			d := racedLeave
 			coq, desc, class, nt = vC15History(t, dir, d.init, func(k int, _ vC15Spec, _, _ []string) *vC15Step {
 				if k >= len(d.steps) {
 					return nil
 				}
 				return &d.steps[k]
 			})
-			desc["raced-corpus"] = j
-		} else if j >= len(raced) && j < len(raced)+nRaced {
+		} else if j -= nRacedLeave; j >= 2*len(raced) && j < 2*len(raced)+nRaced {
 			// publishers arrive, then one or two races
 			nPub := 2 + r.Intn(3)
 			nSteps := nPub + 1 + r.Intn(2)
@@ -937,7 +999,7 @@ func TestVerifC15(t *testing.T) {
 					return &vC15Step{kind: "create", name: vPick(r, vC15Names[:6])}
 				}
 				specs, what := vC15RacedSpecs(r, cur, live, liveConfs)
-				return &vC15Step{kind: "raced", specs: specs, what: what, block: r.Intn(3)}
+				return &vC15Step{kind: "raced", specs: specs, what: what, block: r.Intn(3), oneP: r.Chance(1, 2)}
 			})
 		} else if i < len(corpus) {
 			d := corpus[i]
